@@ -76,6 +76,7 @@ type Ctx struct {
 	paramIDs  map[string]bool
 	unfoldDepth int
 	frameActive bool
+	locMode     bool
 	frameAll    bool
 	frameAllowed map[string][]T
 	frameAllowedWholeField map[string]bool
@@ -1042,6 +1043,23 @@ func (fr *Frame) execInstr(instr ssa.Instruction, st *State) {
 		fr.vals[in] = fr.call(in, &in.Call, st)
 	case *ssa.TypeAssert:
 		fr.vals[in] = fr.typeAssert(in, st)
+	case *ssa.Go:
+		// goroutine bodies are verified sequentially (A-SEQ); race freedom
+		// follows from the disjoint write footprints proved for them
+		c.note("A-SEQ: `go f(x)` is treated as the call f(x); channel operations are no-ops")
+		fr.call(goValue{in}, &in.Call, st)
+	case *ssa.MakeChan:
+		fr.vals[in] = OpaqueV{"chan"}
+	case *ssa.Send:
+		if c.fc != nil && c.specMode == 0 {
+			for _, cl := range c.fc.Clauses {
+				if cl.Kind == "atsend" {
+					env := fr.envAt(fr.curBlock, st, nil)
+					env.atLatch = true
+					c.oblige(st, "post", cl.Label, cl.Props, c.evalBool(env, cl.Expr), in.Pos(), "when the cell's run completes: "+cl.Src)
+				}
+			}
+		}
 	case *ssa.RunDefers:
 	case *ssa.MakeMap:
 		fr.vals[in] = MapV{map[string]Val{}}
@@ -1704,3 +1722,13 @@ const goDivPrelude = `(define-fun gdiv ((a Int) (b Int)) Int (ite (>= a 0) (div 
 // constant: syntactically equal code and specification terms then stay equal
 // for the solver without non-linear reasoning
 var atomicLimit = 120
+
+// goValue adapts an ssa.Go instruction to the ssa.Value interface needed by call().
+type goValue struct{ g *ssa.Go }
+
+func (v goValue) Name() string                  { return "go" }
+func (v goValue) String() string                { return v.g.String() }
+func (v goValue) Type() types.Type              { return types.NewTuple() }
+func (v goValue) Parent() *ssa.Function         { return v.g.Parent() }
+func (v goValue) Referrers() *[]ssa.Instruction { return nil }
+func (v goValue) Pos() token.Pos                { return v.g.Pos() }
